@@ -203,6 +203,50 @@ inline void shared_future_many_awaiters(const vf::opts &o, vf::report &R, uint64
     }
 }
 
+// ---- a value type whose MOVE cannot throw but whose COPY can: the resolver passes an lvalue and the copy throws. The promise is spent
+// by then, so the exception must become the shared result (every awaiter of every copy is resumed with it, the state is freed) - it
+// must not escape to the resolver and leave the future pending for ever.
+struct sv_thr_copy {
+    std::string s; static inline bool boom = false;
+    explicit sv_thr_copy(std::string x) : s(std::move(x)) {}
+    sv_thr_copy(sv_thr_copy &&) noexcept = default;
+    sv_thr_copy(const sv_thr_copy &o) : s(o.s) { if (boom) throw vf::test_exc{61}; }
+};
+inline cocls::async<void> sv_tc_waiter(cocls::shared_future<sv_thr_copy> sf, int &code, int &rel) {
+    try { sv_thr_copy &v = co_await sf; code = v.s.size() > 20 ? 0 : -5; } catch (const vf::test_exc &e) { code = e.code; } catch (...) { code = -9; }
+    rel++;
+}
+inline void shared_future_throwing_copy(const vf::opts &o, vf::report &R, uint64_t cases) {
+    vf::rng master(vf::mix(o.seed, 0x57a7));
+    for (uint64_t cn = 0; cn < cases && R.nviol() < 5; cn++) {
+        vf::rng r(master.next());
+        vf::set_crash_ctx(R.prop.c_str(), "shared_future_throwing_copy", o.seed, cn);
+        int n = 1 + (int)r.below(4); bool throwing = r.chance(2, 3); bool drop_handles = r.chance(1, 3);
+        std::string desc = std::to_string(n) + " awaiters, resolver passes an lvalue" + (throwing ? " whose copy throws" : "") + (drop_handles ? ", ordinary code drops its handle first" : ""), err;
+        std::array<int, 8> code{}, rel{}; code.fill(-1); rel.fill(0);
+        bool escaped = false;
+        {
+            std::optional<cocls::shared_future<sv_thr_copy>> sf; sf.emplace();
+            auto p = sf->get_promise();
+            for (int i = 0; i < n; i++) sv_tc_waiter(*sf, code[(size_t)i], rel[(size_t)i]).detach();
+            if (drop_handles) sf.reset();
+            sv_thr_copy lv(sv_text(cn, 50));
+            sv_thr_copy::boom = throwing;
+            try { p(lv); } catch (...) { escaped = true; }
+            sv_thr_copy::boom = false;
+            if (escaped) err = "the value constructor's exception escaped to the resolver (the promise is spent: nobody can resolve the shared state any more)";
+            for (int i = 0; i < n && err.empty(); i++) {
+                if (rel[(size_t)i] != 1) err = "awaiter #" + std::to_string(i) + " resumed " + std::to_string(rel[(size_t)i]) + " times";
+                else if (code[(size_t)i] != (throwing ? 61 : 0)) err = "awaiter #" + std::to_string(i) + " observed " + std::to_string(code[(size_t)i]) + ", expected " + (throwing ? "the constructor's exception" : "the value");
+            }
+            if (!err.empty() && sf) (void)new cocls::shared_future<sv_thr_copy>(*sf);
+        }
+        R.cases++;
+        if (!err.empty()) { R.violation("monitor:payload|shared_future_throwing_copy", err, vf::jobj().kv("case", (unsigned long long)cn).kv("seed", (unsigned long long)o.seed).kv("desc", desc).str()); continue; }
+        R.nontrivial_cases++; R.sig(desc);
+    }
+}
+
 // ---- publisher<std::string> (C16: every all_values subscriber reads every published value)
 inline cocls::async<void> sv_subscriber(cocls::publisher<std::string> &pub, std::vector<std::string> &got, int &ended) {
     cocls::subscriber<std::string> sub(pub);
